@@ -80,7 +80,11 @@ def run_case(ctx, rng, index, casedir):
     if rng.random() < 0.03:
         nrec = 0  # "any number of records": an empty file converts to an empty file
         sit["zero_record_files"] += 1
-    walks = ggaf.make_walks(g, rng, nrec, maxlen=rng.choice([4, 12]), forced=nrec >= 6)
+    million = ctx.tier == "thorough" and index == 0
+    if million:
+        nrec = 1_000_000 + rng.randint(5, 60)  # whole-genome GAFs have millions of records
+        sit["files_gt_1000000_records"] += 1
+    walks = ggaf.make_walks(g, rng, nrec, maxlen=rng.choice([4, 12]) if not million else 2, forced=nrec >= 6)
     recs = [ggaf.make_record(g, rng, w, f"r{index}_{i}", offsets="canonical", tags=rng.choice(["safe", "grammar_plain"])) for i, w in enumerate(walks)]
     if len(recs) >= 100:
         sit["file_ge_100_records"] += 1
